@@ -540,14 +540,23 @@ def gen_case(rng):
 
 
 # ---------------------------------------------------------------- the oracle
-def norm(text):
-    """Comment text modulo indentation of its lines and whitespace next to the delimiters."""
+def norm(text, style='expanded'):
+    """Comment text modulo indentation of its lines and whitespace next to the delimiters.  In compressed style every
+    run of whitespace counts as one space (the statement only says such comments are kept)."""
     inner = text[2:-2] if text.endswith('*/') and len(text) >= 4 else text[2:]
     inner = inner.replace('\r\n', '\n').replace('\r', '\n').replace('\f', '\n')
+    if style == 'compressed':
+        return ' '.join(inner.split())
     lines = [ln.strip(' \t') for ln in inner.split('\n')]
     while lines and lines[-1] == '':
         lines.pop()
     return '\n'.join(lines).strip()
+
+
+def sig_kind(kind):
+    """The part of a comment's kind that goes into a signature: opener, multi-line or not, interpolated or not."""
+    parts = kind.split('+')
+    return '+'.join([parts[0]] + [f for f in parts[1:] if f in ('multiline', 'interp')])
 
 
 _TOK = re.compile(r'cmt\d+x')
@@ -560,8 +569,8 @@ def site_of(e):
 
 def diff_signature(style, exp, obs):
     """exp: [[tok, text, kind, site]], obs: [comment text].  None when they agree."""
-    ne = [(norm(e[1]), e[1].startswith('/*!')) for e in exp]
-    no = [(norm(o), o.startswith('/*!')) for o in obs]
+    ne = [(norm(e[1], style), e[1].startswith('/*!')) for e in exp]
+    no = [(norm(o, style), o.startswith('/*!')) for o in obs]
     if ne == no:
         return None
     i = 0
@@ -585,27 +594,27 @@ def diff_signature(style, exp, obs):
             return 'comment-that-is-not-reached' if style == 'expanded' else 'comment-that-is-not-preserved'
         return 'comment-repeated'
     if o is None:
-        return '%s|missing|kind=%s|site=%s' % (style, e[2], site_of(e)), det
+        return '%s|missing|kind=%s|site=%s' % (style, sig_kind(e[2]), site_of(e)), det
     if e is None:
         return '%s|extra|%s' % (style, classify_extra(o)), det
     to = tok_of(o)
     if to == e[0]:
         if '#{' in o:
             how = 'interpolation-left-unevaluated'
-        elif norm(o).replace(' ', '').replace('\n', '') == norm(e[1]).replace(' ', '').replace('\n', ''):
+        elif ''.join(o.split()) == ''.join(e[1].split()):
             how = 'whitespace-or-line-structure'
         elif o.startswith('/*!') != e[1].startswith('/*!'):
             how = 'opener'
         else:
             how = 'text'
-        return '%s|text-differs|kind=%s|how=%s' % (style, e[2], how), det
+        return '%s|text-differs|kind=%s|how=%s' % (style, sig_kind(e[2]), how), det
     n_exp = sum(1 for x in exp if x[0] == e[0])
     n_obs = sum(1 for x in obs if tok_of(x) == e[0])
     if n_obs < n_exp:
-        return '%s|missing|kind=%s|site=%s' % (style, e[2], site_of(e)), det
+        return '%s|missing|kind=%s|site=%s' % (style, sig_kind(e[2]), site_of(e)), det
     if to is None or sum(1 for x in obs if tok_of(x) == to) > sum(1 for x in exp if x[0] == to):
         return '%s|extra|%s' % (style, classify_extra(o)), det
-    return '%s|order|kind=%s|site=%s' % (style, e[2], site_of(e)), det
+    return '%s|order|kind=%s|site=%s' % (style, sig_kind(e[2]), site_of(e)), det
 
 
 # Named deviations of the model (each one a documented, separately listed defect of the tree).  A failing case is
@@ -641,7 +650,7 @@ def judge_style(ctx, case, style, r):
     variants = []
     hoisted = keep(case['loud_if_hoisted']) if 'loud_if_hoisted' in case else None
     if hoisted is not None and hoisted != exp:
-        variants.append((['at-rule-in-style-rule-emits-its-own-comments-before-its-nested-rules'], hoisted))
+        variants.append((['at-rule-in-style-rule-hoists-own-comments'], hoisted))
     if style == 'expanded':
         for names, l in [([], exp)] + list(variants):
             if any(e[2].startswith('hash') for e in l):
@@ -655,7 +664,7 @@ def judge_style(ctx, case, style, r):
             ctx.violation('%s|deviation=%s' % (style, '+'.join(names)), case,
                           {'expected': [e[1] for e in exp][:8], 'observed': obs[:8], 'out': out[:600]})
             return
-        if dv[1]['index'] > best[1]['index']:
+        if dv[1]["index"] >= best[1]["index"]:      # on a tie look past the documented deviations
             best = dv
     ctx.violation(best[0], case, dict(best[1], out=out[:800]))
 
